@@ -194,6 +194,11 @@ func (dw *DiskWriter) HandleChange(kind ChangeKind, p string, fi os.FileInfo, er
 		if lfi, err := os.Lstat(linkSrc); err == nil && lfi.Mode()&os.ModeSymlink != 0 {
 			return errors.WithStack(&os.PathError{Path: p, Err: syscall.EINVAL, Op: "hard link to symlink " + statCopy.Linkname})
 		}
+		// ... and the same holds for a directory on the way to it: the link
+		// source must be reached without following any symlink below dest.
+		if resolved, err := filepath.EvalSymlinks(linkSrc); err == nil && resolved != filepath.Clean(linkSrc) {
+			return errors.WithStack(&os.PathError{Path: p, Err: syscall.EINVAL, Op: "hard link through symlink " + statCopy.Linkname})
+		}
 		if err := os.Link(linkSrc, newPath); err != nil {
 			return errors.Wrapf(err, "failed to link %s to %s", newPath, statCopy.Linkname)
 		}
